@@ -27,6 +27,9 @@ def _bootstrap():
     sys.dont_write_bytecode = True
     repo = os.path.abspath(os.environ.get("VERIF_REPO", "/repo"))
     os.environ["VERIF_REPO"] = repo
+    if repo != "/repo":
+        # runs against a scratch copy (mutants, seeded changes, older trees) never touch the committed evidence
+        os.environ["VERIF_NO_EVIDENCE"] = "1"
     os.environ.setdefault("SCECCODE_PYCSEP_VERIF", "1")
     os.environ.setdefault("MPLBACKEND", "Agg")
     for p in (ROOT, repo):
